@@ -3,11 +3,78 @@
 ENGINES = [
     dict(name="pyvc", path="/verif/pyvc", serves_properties=[],
          kind_free_text="self-built deductive verifier for a Python subset: path-wise symbolic execution of the real "
-                        "source AST (concrete types, symbolic values), sidecar contracts, z3 back end, concrete replay "
-                        "of counter-models against the real functions under CPython"),
+                        "source AST (concrete types, symbolic values), sidecar contracts, z3 back end (incremental, "
+                        "fresh solver, z3-new/cvc5 CLI portfolio), concrete replay of counter-models against the real "
+                        "functions under CPython; plus an AST ownership/ordering analysis (pyvc/ownership.py), a "
+                        "symbolic heap (pyvc/heap.py) and a C-helper VC generator"),
 ]
 
+_T = "deductive verification: VCs generated from the Python AST by symbolic execution, sidecar contracts, modular callee contracts / induction, z3"
+
 CLAIMS = {
+    "C02": dict(
+        text="Index linearisation is proved for all values: lift_to_cir and simplify_cir preserve the floor-semantics "
+             "value and only flag a node non-negative when it is; tensor_strides/get_strides/get_idx_offset compute "
+             "the row-major offset (ranks 1-4, dense, window, asserted stride). The emitted C text of comp_cir/comp_e "
+             "is validated against floor semantics for every expression tree up to depth 2 with symbolic values "
+             "(bounded in depth, reported as bounded), new_varname injectivity on bounded name sequences.",
+        design_ref="3/C02",
+        note="Not covered: statement lowering comp_s as text, precision casts, memory macro text, externs, the C "
+             "compiler; machine integers are treated as mathematical outside exo_floor_div; exo_floor_div's "
+             "semantics is proved under C08.",
+        technique=_T + "; bounded translation validation of emitted C text via a small C expression evaluator"),
+    "C07": dict(
+        text="Every in-place mutation site (548 obligations) in the scheduling, effect-analysis, cursor, LoopIR, "
+             "proc_eqv and API files is proved to act on a container that is fresh on every path (flow-sensitive "
+             "ownership analysis over the real AST, one propositional obligation per site), or on a declared add-only "
+             "cache; with frozen ADT nodes and copying constructors (probed on every run) this implies that no "
+             "existing procedure or cursor is changed by any call, successful or failing.",
+        design_ref="3/C07, 2.6-D",
+        note="Assumes the listed sidecar annotations (owns_param, declared caches), that callees outside the analysed "
+             "files do not mutate their arguments, and that dynamic setattr/__dict__ tricks are absent.",
+        technique="contract-style frame/ownership obligations generated from the AST (flow-sensitive origin analysis), discharged per site with z3; replay by structural fingerprint of source procedures"),
+    "C08": dict(
+        text="MemoryAnalysis free placement is proved by a one-step inductive contract on arbitrary scope states: "
+             "exactly one Free per Alloc, in the same block, after the last statement that uses its storage through "
+             "any chain of window aliases (last use specified from the property, not from used_s); used_e/used_s by "
+             "structural induction; the exo_floor_div C helper is parsed from the source on every run and proved free "
+             "of UB (32-bit bit-vectors) and equal to floor division.",
+        design_ref="3/C08",
+        note="Bounded parts (block enumeration up to 5-6 statements, small bit-widths for the direct bit-vector "
+             "statement) are reported as bounded. Not covered: const-ness analysis, alloc/free macro text, libc, "
+             "overflow of index arithmetic outside the helper; '/' '%' emission guards are covered under C02.",
+        technique=_T + "; C-helper VC over bit-vectors"),
+    "C09": dict(
+        text="Coverage is proved by structural induction: after ParallelAnalysis.run returns normally "
+             "Check_ParallelizeLoop was called on every Par loop at any depth, every compiled non-instr proc in the "
+             "call-graph closure goes through it, and the formula Check_ParallelizeLoop hands to the solver implies "
+             "the property's pairwise disjointness condition between distinct iterations (checked with z3 over "
+             "abstract location sets).",
+        design_ref="3/C09",
+        note="Assumes effect extraction (stmts_effs/getsets) over-approximates the accesses of an iteration, the "
+             "is_empty lowering and the SMT solver; block lengths <= 3 in the traversal shapes.",
+        technique=_T + "; formula-construction contracts (captured formula implies the property's condition)"),
+    "C11": dict(
+        text="All of proc_eqv.py is under contract over a symbolic heap with unbounded many nodes: find's loop "
+             "invariant (ghost root/rank) shows path compression never changes the partition, union merges exactly "
+             "two classes (whole-view postcondition), copy is deep; decl/derive/assert/new-key steps update exactly "
+             "the structures the per-field reading prescribes and the queries answer exactly accordingly.",
+        design_ref="3/C11",
+        note="Assumes WeakKeyDictionary behaves as an identity-keyed map without collection of live procs; the "
+             "history-level induction over the proved step postconditions is a meta-argument; which API operations "
+             "start a new origin is decided outside proc_eqv.py and not covered.",
+        technique=_T + " over a symbolic heap with ghost root/rank functions and loop invariants"),
+    "C12": dict(
+        text="_DoNormalize (coefficient maps, get_normalized_expr, generate_loopIR, division/modulo simplification, "
+             "denominator splitting and collapsing, index_start by structural induction) and DoSimplify (cfold, "
+             "map_binop rules, quotient-remainder, branch facts, branch/loop removal decisions) are proved to "
+             "preserve the floor-semantics value for all coefficients, constants, divisors and variable values "
+             "admitted by the range environment.",
+        design_ref="3/C12",
+        note="Assumes the C13 contracts of IndexRangeEnvironment (proved there), Cursor_Rewrite traversal plumbing, "
+             "and that inside one index expression two different sub-expressions never print identically "
+             "(is_quotient_remainder compares printed text).",
+        technique=_T + " with explicit quotient witnesses (cuts) for non-linear arithmetic"),
     "C13": dict(
         text="Every arithmetic operator of IndexRange, the recursive range analysis (structural induction with the "
              "contract as induction hypothesis), constant_bound and the IndexRangeEnvironment queries are proved "
@@ -17,13 +84,30 @@ CLAIMS = {
         note="Assumes pyvc's Python semantics, z3, LoopIR_Compare.match_e (used by the join) returning True only for "
              "expressions of equal value, Check_ExprBound (slow path of arg_range_analysis) and the enumerated "
              "constructor shapes of expressions; the stdlib mirror is covered through the shared IndexRange class only.",
-        technique="deductive verification: VCs from the Python AST by symbolic execution + z3, modular callee contracts, structural induction",
-    ),
+        technique=_T),
+    "C17": dict(
+        text="PrintEnv.get_name/push are proved to maintain, from an arbitrary state satisfying it, the invariant "
+             "that the scope chain maps live symbols injectively to strings and that every string handed out is "
+             "recorded (names as an uninterpreted sort, loop cut on the candidate search).",
+        design_ref="3/C17",
+        note="Not covered: operator precedence printing and the parse-print round trip (no parser semantics in "
+             "reach); termination of the candidate loop; the printer's stack discipline is read off the code.",
+        technique=_T + "; inductive invariant step on an arbitrary abstract state"),
+    "C18": dict(
+        text="Every place in the four anchor files where an unordered value (set, Sym-keyed container) is consumed "
+             "in order is an obligation discharged by an ordering rule (int elements, order-insensitive body, sorted "
+             "with an injective key, ...); Sym.__lt__ is proved a strict total order consistent with __eq__ and "
+             "invariant under a uniform shift of the symbol counter.",
+        design_ref="3/C18, 2.6-D",
+        note="Assumes injectivity of two sort keys (extern name+type, memory names), order-insensitivity of calls "
+             "in pure position, and everything outside the four anchor files (unification variable order, z3 "
+             "model choice).",
+        technique="ordering obligations generated from the AST (unordered-origin analysis) discharged with z3; value contract on Sym.__lt__"),
 }
 
 _PLANNED = "planned in DESIGN.md but the contracts are not built yet; not claimed on the strength of the design"
 NOT_APPLICABLE = {
     "C14": "needs a formal semantics of vendor intrinsics (AVX2/AVX-512 C fragments); no contract over code in /repo can state it - any contract would be the assumption the property asks to check",
 }
-for _k in ("C01 C02 C03 C04 C05 C06 C07 C08 C09 C10 C11 C12 C15 C16 C17 C18 C19").split():
+for _k in ("C01 C03 C04 C05 C06 C10 C15 C16 C19").split():
     NOT_APPLICABLE.setdefault(_k, _PLANNED)
